@@ -10,7 +10,7 @@ Big == { <<999,999,999,999,999>>, <<1,0,0,0,0,0,1>>, <<500,0,0,500>>, <<123,456,
          <<456,768,211,455,431,607,374,463,463,920,938,366,282,340>> }
 Small == { <<1>>, <<3>>, <<999>>, <<0,1>>, <<999,999>>, <<1,500>>, <<17,3,2>> }
 ASSUME \A a \in R : ToInt(FromInt(a)) = a /\ IsNat(FromInt(a))
-ASSUME \A a \in 0..400, b \in 0..400 :
+ASSUME \A a \in 0..140, b \in 0..140 :
           /\ ToInt(Add(FromInt(a * 37), FromInt(b * 91))) = a * 37 + b * 91
           /\ ToInt(Mul(FromInt(a * 13), FromInt(b * 29))) = a * 13 * b * 29
           /\ Cmp(FromInt(a * 7), FromInt(b * 7)) = (IF a < b THEN -1 ELSE IF a > b THEN 1 ELSE 0)
